@@ -405,7 +405,7 @@ func (e *Exec) valEq(st *State, a, b Val, t types.Type) string {
 		st.note("comparison with mismatched shapes (%d vs %d) on %s", len(a.T), len(b.T), t)
 		return e.fresh("cmp", SBool)
 	}
-	switch t.Underlying().(type) {
+	switch under(t).(type) {
 	case *types.Slice:
 		// only comparison with nil is legal: nil slice has base 0
 		return tEq(a.T[0], b.T[0])
@@ -714,7 +714,7 @@ func (e *Exec) indexAddr(st *State, x *ssa.IndexAddr) {
 	bv := e.val(st, x.X)
 	iv := e.val(st, x.Index)
 	i64 := resize(iv.T[0], bvWidth(shape(x.Index.Type())[0].Sort), 64, !isUnsigned(x.Index.Type()))
-	switch t := x.X.Type().Underlying().(type) {
+	switch t := under(x.X.Type()).(type) {
 	case *types.Slice:
 		e.nopanic(st, "index", x, tAnd(app("bvsge", i64, bvLitI(0, 64)), app("bvslt", i64, bv.T[2])))
 		loc := e.elemLoc(bv.T[0], app("bvadd", bv.T[1], i64), t.Elem())
@@ -754,7 +754,7 @@ func (e *Exec) slice(st *State, x *ssa.Slice) {
 		return resize(iv.T[0], bvWidth(shape(v.Type())[0].Sort), 64, !isUnsigned(v.Type()))
 	}
 	zero := bvLitI(0, 64)
-	switch t := x.X.Type().Underlying().(type) {
+	switch t := under(x.X.Type()).(type) {
 	case *types.Basic: // string
 		ln := e.strLen(bv.T[0])
 		lo, hi := zero, ln
